@@ -12,6 +12,7 @@ import YalafiVerif.Model.Tex2txt
 import YalafiVerif.Proofs.Inv.Tex2txt
 import YalafiVerif.Generated.WF
 import YalafiVerif.Proofs.PlainUnknown
+import YalafiVerif.Generated.Init
 namespace Yalafi
 
 /-- what `addUnknown` does to the state -/
@@ -92,5 +93,24 @@ theorem C19_unknowns_complete (T : PTables) (o : Options) (fs : FS) (thresh : Na
   obtain ⟨r, h1, h2, h3, _, h5, h6⟩ :=
     tex2txt_unknowns_complete T o fs thresh segs fuel st1 hdefs hextr hrepl hinit hok hf
   exact ⟨r, h1, h2, h3, h5, fun hu => ⟨(h6 hu).2.2.1, (h6 hu).2.2.2⟩⟩
+
+/-- completeness of the unknowns list for the CURRENT code (tables translated from /repo, default
+    options, parser initialisation evaluated by the kernel) -/
+theorem C19_unknowns_complete_current (segs : List Seg) (thresh : Nat)
+    (hok : SegsOk Generated.theTables Generated.stDefault segs)
+    (hf : (render segs).length + 2 ≤ Generated.bigFuel) :
+    ∃ r, tex2txt Generated.theTables Generated.bigFuel (render segs) Generated.defaultOptions false thresh [] = .ok r ∧
+      r.unknowns = (controlWords segs).eraseDups ∧ r.diags = Generated.stDefault.diags := by
+  obtain ⟨r, h1, h2, h3, _⟩ := C19_unknowns_complete Generated.theTables Generated.defaultOptions [] thresh segs
+    Generated.bigFuel Generated.stDefault rfl rfl rfl Generated.initParser_default hok hf
+  exact ⟨r, h1, h2, h3⟩
+
+/-- a concrete document satisfies the side conditions on the real tables (and `\\LaTeX`, which is
+    declared, does not) -/
+theorem C19_example_current :
+    SegsOk Generated.theTables Generated.stDefault
+      [.txt "Hello ".toList, .cw "foo".toList, .txt " world ".toList, .cw "bar".toList, .cw "foo".toList, .txt ", end.".toList] ∧
+    ¬ SegsOk Generated.theTables Generated.stDefault [.txt "Use ".toList, .cw "LaTeX".toList, .txt " here.".toList] := by
+  decide +kernel
 
 end Yalafi
